@@ -20,6 +20,7 @@ import (
 	"go/token"
 	"go/types"
 	"sort"
+	"strconv"
 	"strings"
 )
 
@@ -1457,6 +1458,8 @@ func (ip *Interp) eval(fr *Frame, st *State, e ast.Expr) []Out {
 					if eq, known := valuesEqual(l.val(), r.val()); known {
 						v = boolVal(eq == (x.Op == token.EQL))
 					}
+				} else if fv, ok := foldInts(x.Op, l.val(), r.val()); ok {
+					v = fv
 				}
 				outs = append(outs, Out{St: r.St, Vals: []Value{v}})
 			}
@@ -1747,4 +1750,34 @@ func (ip *Interp) inline(fr *Frame, st *State, call *ast.CallExpr, f *Func, args
 		outs = append(outs, Out{St: s, Vals: r.Vals})
 	}
 	return outs
+}
+
+// foldInts folds + - * and the order comparisons on two known small integer constants (the values a tracked counter
+// or status field takes): `next := count - 1 ... next == 0` stays decidable.
+func foldInts(op token.Token, a, b Value) (Value, bool) {
+	if a.Kind != VConst || b.Kind != VConst {
+		return Value{}, false
+	}
+	x, err1 := strconv.ParseInt(a.S, 10, 64)
+	y, err2 := strconv.ParseInt(b.S, 10, 64)
+	if err1 != nil || err2 != nil {
+		return Value{}, false
+	}
+	switch op {
+	case token.ADD:
+		return Value{Kind: VConst, S: strconv.FormatInt(x+y, 10)}, true
+	case token.SUB:
+		return Value{Kind: VConst, S: strconv.FormatInt(x-y, 10)}, true
+	case token.MUL:
+		return Value{Kind: VConst, S: strconv.FormatInt(x*y, 10)}, true
+	case token.LSS:
+		return boolVal(x < y), true
+	case token.LEQ:
+		return boolVal(x <= y), true
+	case token.GTR:
+		return boolVal(x > y), true
+	case token.GEQ:
+		return boolVal(x >= y), true
+	}
+	return Value{}, false
 }
